@@ -39,7 +39,7 @@ CLAIMED = {
             "bufio (4096-byte fills, 100 empty reads), io.TeeReader and bytes.Buffer are modelled; memory safety of the Go runtime itself is outside the model; the theorems are about the transcription, tied to the code by the per-run correspondence.",
             "DESIGN.md section 6 C08 and section 11.10"),
     "C09": ("Coq proof of the section framing for all contents (body/attachments of arbitrary bytes read back exactly; short and negative sizes refused) + correspondence of Bytes()/ReadFrom with the model on API-built and mutated messages",
-            "Theorems C09_sections/C09_files/C09_section_*/C09_layout hold for every body and every list of attachments of arbitrary bytes. PARTIAL: the header block (net/textproto.ReadMIMEHeader, modelled) and the full statement C09_roundtrip_statement are decided per run: API-built messages (all address forms, Latin-1 subjects and file names, any minute, 0..4 attachments, X- headers) are serialised and parsed by code and model through whole, 1-byte and random-chunk readers, with parse(serialise m) = m, canonical re-serialisation and the accessors checked on the implementation.",
+            "Theorems C09_sections/C09_files/C09_section_*/C09_layout hold for every body and every list of attachments of arbitrary bytes. The header block round trip (C09_header_roundtrip), the whole message (C09_message_roundtrip) and byte-identical re-serialisation (C09_normal_form, C09_reserialise) are theorems over the model of textproto.ReadMIMEHeader/Header.Write. PARTIAL: encoded words, charsets and non-Winlink date layouts are library code, decided per run: API-built messages (all address forms, Latin-1 subjects and file names, any minute, 0..4 attachments, X- headers) are serialised and parsed by code and model through whole, 1-byte and random-chunk readers, with parse(serialise m) = m, canonical re-serialisation and the accessors checked on the implementation.",
             "mime.QEncoding/WordDecoder, go-charset, time.Parse (beyond the four Winlink layouts) and textproto are library code: modelled or passed through; the known finding 'subject with outer white space is trimmed' is reported as KNOWN-FINDING.",
             "DESIGN.md section 6 C09"),
     "C01": ("Coq proofs of the codecs of the exchange for all inputs (frame round trip, block order/size, block checksum, delivered => accepted transfer) + pairs of real sessions judged by the property's statement and compared side by side with the model",
